@@ -11,6 +11,7 @@ CONSTANTS
   MaxOps = 10
   GenHist = TRUE
   F2Fixed = FALSE
+  CuGuard = FALSE
   Profile = "c04"
 INIT Init
 NEXT GenNext
